@@ -10,7 +10,14 @@
 //! is simplest-first: rank, then element count, then lexicographic shape, then lexicographic index):
 //!   from_vec_valid, index_row_major, get_index, from_slice, new_writes, iter_order,
 //!   index_mut_writes_one, oob_panics, ctor_rejects_zero_extent, ctor_rejects_bad_len,
-//!   io_roundtrip, write_format, eq_data, eq_shape.
+//!   io_roundtrip, write_format, eq_data, eq_shape, clone, clone_from.
+//!
+//! Copies (families clone, clone_from): a tensor obtained through `Clone` is a tensor like any other, so the
+//! property's clauses are demanded of it too: for every shape `t.clone()`, and for every ORDERED pair of
+//! same-rank shapes (target, source) `target.clone_from(&source)` — targets of the same shape, of another
+//! shape with the same element count, with more and with fewer elements — must report the source's dims(),
+//! hold its elements row-major under iteration / Index / get_index, reject out-of-range indices, take a write
+//! through IndexMut in exactly one element, compare equal to the source and survive write -> Tensor::read.
 //!
 //! Every family is made of small "atoms" (one plain execution of the real code + comparison); the
 //! enumeration calls the atoms, and `confirm` (used by --replay and by Run::finish) calls exactly one
@@ -568,6 +575,100 @@ fn atom_eq_shape<const D: usize>(da: [usize; D], db: [usize; D]) -> Result<(), S
 }
 
 // ---------------------------------------------------------------------------------------------
+// copies: tensors obtained through Clone::clone / Clone::clone_from
+
+/// what a clone_from target holds before the call: distinct values, none of them a source value 10+k
+fn stale(k: usize) -> E {
+    5000 + k as E
+}
+
+/// number of comparisons `examine_copy` makes for a copy of this shape
+fn copy_evals<const D: usize>(dims: &[usize; D]) -> u64 {
+    let n = product(dims);
+    let oob: usize = dims.iter().map(|d| n / d).sum();
+    (1 + D + 3 * n + oob + 2 + (n + 2) + (n + 1)) as u64
+}
+
+/// `c` is supposed to be an exact copy of `src` = from_vec(dims, 10,11,…).  Everything the property says of a
+/// tensor of shape `dims` is demanded of it: dims()/dim(i); iter() and every valid index (Index, get_index)
+/// give the row-major sequence; every index with one coordinate equal to its extent (the others over all
+/// valid values) is rejected; `==` with the source both ways; write -> Tensor::read with the source's shape
+/// gives a tensor equal to the source; a write through IndexMut at the last index changes exactly the last
+/// storage element.
+fn examine_copy<const D: usize>(mut c: Tensor<E, D>, src: &Tensor<E, D>, dims: &[usize; D], how: &str) -> Result<(), String> {
+    let n = product(dims);
+    match catch(|| *c.dims()) {
+        Ok(d) if d == *dims => {}
+        other => return Err(format!("{how}: dims() of the copy gives {other:?}, the source has shape {}", cd(dims))),
+    }
+    for i in 0..D {
+        match catch(|| c.dim(i)) {
+            Ok(d) if d == dims[i] => {}
+            other => return Err(format!("{how}: dim({i}) of the copy gives {other:?}, the source has shape {}", cd(dims))),
+        }
+    }
+    expect_all(&c, dims, how, &val)?;
+    let idxs = all_indices(dims);
+    for (k, idx) in idxs.iter().enumerate() {
+        atom_get_index(&c, dims, *idx, k).map_err(|m| format!("{how}: {m}"))?;
+    }
+    for j in 0..D {
+        let mut others = *dims;
+        others[j] = 1;
+        for r in all_indices(&others) {
+            let mut idx = r;
+            idx[j] = dims[j];
+            if catch(|| c[idx]).is_ok() {
+                // the plain atom words the failure (and says which element is aliased)
+                return Err(format!("{how}: {}", atom_oob(&c, dims, "index", idx).err().unwrap_or_else(|| "an out-of-range index was accepted".into())));
+            }
+        }
+    }
+    match catch(|| (c == *src, *src == c)) {
+        Ok((true, true)) => {}
+        other => return Err(format!("{how}: the copy has the source's shape {} and elements, but (copy == source, source == copy) = {other:?}", cd(dims))),
+    }
+    let text = write_one(&c).map_err(|m| format!("{how}: writing the copy: {m}"))?;
+    let back = catch(|| {
+        let mut r = Reader::new(Box::new(&text[..]));
+        Tensor::<E, D>::read(*dims, &mut r)
+    })
+    .map_err(|p| format!("{how}: Tensor::read of the text written from the copy, {}, panicked: {p}", show(&text)))?;
+    let got = data_of(&back);
+    if got.len() != n || got.iter().enumerate().any(|(k, x)| *x != val(k)) || !matches!(catch(|| back == *src), Ok(true)) {
+        return Err(format!("{how}: the copy was written as {} and read back with shape {}: not equal to the source (elements read: {} of {n})", show(&text), cd(dims), got.len()));
+    }
+    let last = idxs[n - 1];
+    catch(|| {
+        c[last] = SENTINEL;
+    })
+    .map_err(|p| format!("{how}: copy[{}] = x panicked on a valid index: {p}", cd(&last)))?;
+    let got = data_of(&c);
+    if got.len() != n || got.iter().enumerate().any(|(k, x)| *x != if k == n - 1 { SENTINEL } else { val(k) }) {
+        let changed: Vec<usize> = (0..got.len().min(n)).filter(|&k| got[k] != val(k)).collect();
+        return Err(format!("{how}: copy[{}] = {SENTINEL} must change exactly storage element #{}; elements changed: {changed:?} (storage length {})", cd(&last), n - 1, got.len()));
+    }
+    Ok(())
+}
+
+fn atom_clone<const D: usize>(dims: [usize; D]) -> Result<(), String> {
+    let src = build(dims)?;
+    let how = format!("Tensor::from_vec({}, 10,11,…).clone()", cd(&dims));
+    let c = catch(|| src.clone()).map_err(|p| format!("{how} panicked: {p}"))?;
+    examine_copy(c, &src, &dims, &how)
+}
+
+/// `dst.clone_from(&src)`: afterwards dst must be what `src.clone()` is, whatever dst was before
+fn atom_clone_from<const D: usize>(dst_dims: [usize; D], src_dims: [usize; D]) -> Result<(), String> {
+    let src = build(src_dims)?;
+    let nd = product(&dst_dims);
+    let how = format!("dst = from_vec({}, 5000,5001,…); dst.clone_from(&from_vec({}, 10,11,…))", cd(&dst_dims), cd(&src_dims));
+    let mut dst = catch(|| Tensor::<E, D>::from_vec(dst_dims, (0..nd).map(stale).collect())).map_err(|p| format!("shape {}: from_vec panicked: {p}", cd(&dst_dims)))?;
+    catch(|| dst.clone_from(&src)).map_err(|p| format!("{how} panicked: {p}"))?;
+    examine_copy(dst, &src, &src_dims, &how)
+}
+
+// ---------------------------------------------------------------------------------------------
 // accumulator
 
 #[derive(Default)]
@@ -802,6 +903,26 @@ fn check_shape<const D: usize>(dv: &[usize], peers: &[Vec<usize>], me: usize) ->
         acc.add(if same_count { "eq_shape_pairs_equal_count_equal_data" } else { "eq_shape_pairs_different_count" }, 1);
     }
 
+    // copies: clone of this shape; clone_from of this shape INTO every shape of the same rank (itself included)
+    acc.check("clone", 1 + copy_evals(&dims), atom_clone(dims), || cd(dv), || rp(json!({})));
+    for target in peers {
+        let dd: [usize; D] = to_arr(target);
+        acc.check("clone_from", 1 + copy_evals(&dims), atom_clone_from(dd, dims), || format!("{}<-{}", cd(target), cd(dv)), || rp(json!({"dst": target})));
+        let nd = product(&dd);
+        acc.add(
+            if dd == dims {
+                "clone_from_target_same_shape"
+            } else if nd == n {
+                "clone_from_target_other_shape_equal_count"
+            } else if nd > n {
+                "clone_from_target_more_elements"
+            } else {
+                "clone_from_target_fewer_elements"
+            },
+            1,
+        );
+    }
+
     let last = idxs[n - 1];
     acc.samples.push(json!({
         "shape": dv,
@@ -910,6 +1031,14 @@ fn confirm_d<const D: usize>(v: &Value) -> Result<(), String> {
             }
             atom_eq_shape(dims, to_arr(&o))
         }
+        "clone" => atom_clone(dims),
+        "clone_from" => {
+            let o = usizes(&v["dst"])?;
+            if o.len() != D || o.contains(&0) {
+                return Err("replay: bad target shape".into());
+            }
+            atom_clone_from(to_arr(&o), dims)
+        }
         other => Err(format!("replay: unknown family {other:?}")),
     }
 }
@@ -939,6 +1068,8 @@ const FAMILIES: &[&str] = &[
     "write_format",
     "eq_data",
     "eq_shape",
+    "clone",
+    "clone_from",
 ];
 
 fn main() {
@@ -986,9 +1117,15 @@ fn main() {
     let mut total = Acc::default();
     let mut per_rank_inside = vec![0u64; MAX_RANK];
     let mut per_rank_eqpairs = vec![0u64; MAX_RANK];
+    const TARGET_CLASSES: [&str; 4] =
+        ["clone_from_target_same_shape", "clone_from_target_other_shape_equal_count", "clone_from_target_more_elements", "clone_from_target_fewer_elements"];
+    let mut per_rank_targets = vec![[0u64; 4]; MAX_RANK];
     for (a, &(r, _)) in accs.into_iter().zip(jobs.iter()) {
         per_rank_inside[r] += a.get("oob_indices_flat_offset_inside_storage");
         per_rank_eqpairs[r] += a.get("eq_shape_pairs_equal_count_equal_data");
+        for (c, name) in TARGET_CLASSES.iter().enumerate() {
+            per_rank_targets[r][c] += a.get(name);
+        }
         total.merge(a);
     }
     let mut expected_zero = 0u64;
@@ -1013,12 +1150,13 @@ fn main() {
     run.cov("distinct_written_texts", total.texts.len() as u64);
     run.cov("oob_inside_storage_by_rank", json!(per_rank_inside));
     run.cov("eq_shape_equal_count_pairs_by_rank", json!(per_rank_eqpairs));
+    run.cov("clone_from_targets_by_rank_same_shape_equal_count_more_fewer", json!(per_rank_targets));
     run.cov("max_rank", MAX_RANK as u64);
     run.cov("max_extent", max_extent as u64);
     run.cov("families", json!(FAMILIES));
     run.cov(
         "rule",
-        "every shape of rank 1..=4 with extents 1..=max_extent (ordered by rank, element count, lexicographic); per shape: every valid multi-index (odometer, last coordinate fastest; the k-th must address storage element k of from_vec(10,11,…)) for Index, get_index and a write through IndexMut; from_slice, new + one write per index, iter/iter_mut/into_iter; every index with exactly one coordinate set to extent, extent+1 or usize::MAX and all other coordinates over all valid values, for get_index, Index and IndexMut (must panic); data lengths 0, n-1, n+1 for from_vec/from_slice (must panic); every shape with extents 0..=max_extent containing a 0 for new, from_vec(empty), from_slice(empty), Tensor::read (must panic); write→Tensor::read round trip and text layout for i32, u64 and String elements with every rotation of a boundary value list; == for same shape same data, same shape one element changed (every position), and every unordered pair of distinct shapes of the same rank. distinct_nontrivial = MEASURED number of distinct (shape, out-of-range index) cases whose flattened offset sum idx*stride is still inside the storage (aliasing is possible without the per-dimension check) + distinct (shape, valid index) cases whose row-major offset differs from the column-major offset (a stride-order error is observable)",
+        "every shape of rank 1..=4 with extents 1..=max_extent (ordered by rank, element count, lexicographic); per shape: every valid multi-index (odometer, last coordinate fastest; the k-th must address storage element k of from_vec(10,11,…)) for Index, get_index and a write through IndexMut; from_slice, new + one write per index, iter/iter_mut/into_iter; every index with exactly one coordinate set to extent, extent+1 or usize::MAX and all other coordinates over all valid values, for get_index, Index and IndexMut (must panic); data lengths 0, n-1, n+1 for from_vec/from_slice (must panic); every shape with extents 0..=max_extent containing a 0 for new, from_vec(empty), from_slice(empty), Tensor::read (must panic); write→Tensor::read round trip and text layout for i32, u64 and String elements with every rotation of a boundary value list; == for same shape same data, same shape one element changed (every position), and every unordered pair of distinct shapes of the same rank; copies: t.clone() for every shape and target.clone_from(&source) for every ORDERED pair of same-rank shapes (target of the same shape, of another shape with the same element count, with more elements, with fewer elements; the target holds 5000,5001,… before the call), the copy being examined like a constructed tensor: dims()/dim(i) are the source's, iter() and every valid index through Index and get_index give the row-major sequence, every index with one coordinate = its extent (others over all valid values) panics, copy == source both ways, write → Tensor::read with the source's shape gives the source back, a write through IndexMut at the last index changes exactly the last element. distinct_nontrivial = MEASURED number of distinct (shape, out-of-range index) cases whose flattened offset sum idx*stride is still inside the storage (aliasing is possible without the per-dimension check) + distinct (shape, valid index) cases whose row-major offset differs from the column-major offset (a stride-order error is observable)",
     );
     run.cov("exhaustive", true);
     run.cov(
@@ -1054,6 +1192,18 @@ fn main() {
             run.machinery_failure(&format!("rank {}: no pair of different shapes with equal element count was compared", r + 1));
         }
     }
+    let expected_pairs: u64 = per_rank.iter().map(|v| (v.len() * v.len()) as u64).sum();
+    if total.get("clone_from") != expected_pairs || total.get("clone") != expected_shapes {
+        run.machinery_failure("not every shape was cloned / not every ordered pair of same-rank shapes went through clone_from");
+    }
+    for r in 0..MAX_RANK {
+        for (c, name) in TARGET_CLASSES.iter().enumerate() {
+            // rank 1: two different shapes never have the same element count
+            if per_rank_targets[r][c] == 0 && !(r == 0 && c == 1) {
+                run.machinery_failure(&format!("rank {}: no clone_from case of class {name}", r + 1));
+            }
+        }
+    }
     if total.get("oob_indices_inside_storage_by_wraparound") == 0 || total.get("valid_indices_layout_sensitive") == 0 {
         run.machinery_failure("no wrap-around probe / no layout-sensitive valid index was exercised");
     }
@@ -1073,6 +1223,7 @@ fn main() {
 
     run.assume("write_format: the 'documented separators' are taken from the crate's own `output` test ([2,2,3] of 0..12 is written as \"0 1 2\\n3 4 5\\n\\n6 7 8\\n9 10 11\") and the property's anchor (spaces inside the last dimension, one more newline per outer dimension): elements of the last dimension joined by ' ', sub-blocks of a rank-k block joined by k-1 '\\n', nothing after the last element; each element's own text is whatever the real Writer produces for that element alone. The property statement itself only demands the round trip (family io_roundtrip); write_format is a separate family");
     run.assume("io_roundtrip: String elements are restricted to non-empty tokens of printable non-space ASCII (the Reader is whitespace-separated and byte-oriented); empty, whitespace-containing and non-ASCII candidates are skipped and counted in skipped_out_of_domain");
+    run.assume("clone / clone_from: the statement does not name Clone; a tensor obtained through the type's public Clone impl is taken to be a tensor in the statement's sense (it has a shape, dims(), and must index it row-major with per-dimension checks, iterate, write and read back, and compare accordingly), and `a.clone_from(&b)` is taken, per the std contract of Clone, to leave `a` equal to `b.clone()` — so the copy is held to the source's shape and elements. Nothing else about Clone (capacity reuse, allocation) is demanded");
     run.assume("equality across shapes can only be expressed for equal rank (different ranks are different types)");
     run.assume("a panic from the Vec bounds check counts as 'rejected with a panic' for out-of-range indices whose flattened offset is outside the storage; for offsets inside the storage only the per-dimension check can produce it");
     run.finish(&confirm)
